@@ -122,6 +122,18 @@ def check_property(pid, tier, seed, canary=True):
     nontrivial = set()
     evaluations = 0
 
+    # ------------------------------------------------------------------ generators (regenerate harness text from oracles / repo data)
+    stand_in_results = []
+    for gen in cfg.get("generators", []):
+        rc, so, se, wall = run([sys.executable, os.path.join(VERIF, "bin", gen)], cwd=VERIF, timeout=300)
+        cmds.append("bin/" + gen)
+        if rc != 0:
+            undecided.append("generator %s failed: %s" % (gen, (se or so)[-500:]))
+        for ln in so.split("\n"):
+            if ln.startswith("DATA-VIOLATION: "):
+                d = ln[len("DATA-VIOLATION: "):]
+                violations.append({"obligation": "data:%s:%s" % (gen, safe_name(d)[:70]), "engine": "generator", "detail": d, "verifier_output": ln})
+
     # ------------------------------------------------------------------ Verus units
     units = list(cfg.get("verus", []))
     if tier == "thorough":
@@ -220,6 +232,27 @@ def check_property(pid, tier, seed, canary=True):
             else:
                 undecided.append("%s: %s" % (name, r.get("reason", r["status"])))
 
+    # ------------------------------------------------------------------ bounded / exhaustive-execution stand-ins (never counted as proved)
+    if cfg.get("standins"):
+        binp0, err0 = _replay_build()
+        for st in cfg["standins"]:
+            if not binp0:
+                undecided.append("stand-in %s: replay crate did not build: %s" % (st["name"], err0[-300:]))
+                continue
+            import subprocess
+            try:
+                pr = subprocess.run([binp0, "--stdin"], input=json.dumps(st["payload"]), stdout=subprocess.PIPE, stderr=subprocess.PIPE,
+                                    text=True, timeout=900, env=common.env())
+                rr = json.loads(pr.stdout.strip().split("\n")[-1])
+            except Exception as ex:
+                rr = {"outcome": "error", "detail": str(ex)}
+            stand_in_results.append({"name": st["name"], "kind": st["kind"], "bound": st["bound"], "result": rr})
+            if rr.get("outcome") == "violation":
+                violations.append({"obligation": "standin:" + st["name"], "engine": "standin", "detail": rr.get("detail", ""),
+                                   "verifier_output": json.dumps(rr), "standin_payload": st["payload"]})
+            elif rr.get("outcome") != "ok":
+                undecided.append("stand-in %s: %s" % (st["name"], rr))
+
     # ------------------------------------------------------------------ known findings, replay
     new_viol = []
     known_hit = []
@@ -274,6 +307,14 @@ def check_property(pid, tier, seed, canary=True):
             path = os.path.join(REPLAY_DIR, "%s-%s.json" % (pid, safe_name(v["obligation"])))
             rep = {"property": pid, "obligation": v["obligation"], "engine": v["engine"], "detail": v["detail"],
                    "verifier_output": v["verifier_output"], "inputs": None, "harness": None, "replay": None}
+            if v["engine"] == "standin":
+                rep["witness_search"] = v["standin_payload"]
+                rep["inputs"] = v["detail"]
+                rep["replay"] = {"outcome": "violation", "detail": v["detail"]}
+                write_json(path, rep)
+                viol_lines.append("VIOLATION property=%s replay=%s" % (pid, path))
+                print("  failed stand-in %s: %s" % (v["obligation"], v["detail"][:300]))
+                continue
             h = v.get("harness")
             cand = [h] if h else [x for x in cfg.get("paired", {}).get(v.get("unit"), []) if paired_failed.get(x)]
             reproduced = False
@@ -358,6 +399,7 @@ def check_property(pid, tier, seed, canary=True):
         "samples": samples[:60],
         "extraction_diffs": diffs,
         "known_findings_reported": [k["obligation"] for k in known_hit],
+        "stand_ins": stand_in_results,
         "explanation": cfg.get("explanation", ""),
         "not_decided": cfg.get("not_decided", []),
     }
